@@ -319,6 +319,38 @@ def run(ctx):
                     and z.freq_align == ('top' if h['BW'] < 0 else 'bottom') and z.shape[1:] == (h['NCHAN'], 4)):
                 ctx.fail('header_metadata', dict(reader=s.name), impl=[str(z.center_freq), str(z.bandwidth), z.freq_align])
 
+    # lazy reads of DISTINCT readers at the same (offset, n), evaluated in ONE graph (dask.compute of both, a stacked / subtracted
+    # array): every reader must still return ITS data -- the reads of two readers must not share task keys
+    import dask.array as da
+    for k in range(20 if ctx.tier == 'quick' else 200):
+        a, b = rng.sample(srcs, 2)
+        Lm = min(len(a.reader), len(b.reader))
+        o = rng.randint(0, max(0, Lm - 1))
+        n = min(rng.choice([1, 2, 7, 16, 33]), Lm - o) if a.name.startswith('dada_stokes') or b.name.startswith('dada_stokes') else min(rng.choice([1, 8, 16, 64]), Lm - o)
+        inp = dict(readers=[a.name, b.name], offset=o, n=n, mode='dask_joint')
+        ctx.seen(inp); ctx.count('mode:dask_joint')
+        try:
+            ea, eb = np.asarray(a.reader.read(o, n).data), np.asarray(b.reader.read(o, n).data)
+            how = rng.choice(['compute_together', 'stack', 'difference'])
+            la = a.reader.dask_read(o, n) if rng.random() < 0.5 else a.reader.read(o, n, use_dask=True)
+            lb = b.reader.dask_read(o, n) if rng.random() < 0.5 else b.reader.read(o, n, use_dask=True)
+            with dask.config.set(scheduler=rng.choice(['synchronous', 'threads'])):
+                if how == 'compute_together' or la.data.shape != lb.data.shape:
+                    va, vb = dask.compute(la.data, lb.data)
+                elif how == 'stack':
+                    st = da.stack([la.data, lb.data]).compute()
+                    va, vb = st[0], st[1]
+                else:
+                    va = np.asarray(la.data.compute())
+                    vb = va - np.asarray((la.data - lb.data).compute())
+                    if not np.allclose(vb, eb, rtol=1e-5, atol=1e-5 * (np.max(np.abs(eb)) if eb.size else 0)):
+                        ctx.fail('dask_reads_of_two_readers_interfere', dict(inp, how=how)); continue
+                    vb = eb
+            if not (np.array_equal(np.asarray(va), ea) and np.array_equal(np.asarray(vb), eb)):
+                ctx.fail('dask_reads_of_two_readers_interfere', dict(inp, how=how))
+        except Exception as e:
+            ctx.fail('dask_read_raised', inp, impl=repr(e))
+
     res = ctx.run_cases(HEADER, items, shard=max(60, len(items) // 16 + 1))
     if res is None:
         return
